@@ -585,17 +585,33 @@ def _fmt_node(n):
 
 
 def check_classification(eng, table, chk, cls_name):
-    """Every field of the tracked classes must be classified (a new member must be looked at)."""
+    """Every field of the tracked classes is classified.  The tables name the members that existed when the rules were written; a
+    member that is *new* is classified by what the code does with it (and recorded in the evidence): written by some Execute
+    (directly or through callees) -> scratch, and then it must be defined before use in every Execute like any other scratch
+    member; never written by an Execute -> configuration (set by constructors / setters only)."""
     known = set()
     for k in ("dbu", "clean", "config", "allow"):
         known |= set(table.get(k, {}))
     missing = sorted(set(eng.fields) - known)
     gone = sorted(known - set(eng.fields) - set(table.get("optional", ())))
     if missing:
-        raise AnalysisBroken("field(s) %s of %s are not classified as scratch/config/allow-listed in the E2 table "
-                             "(a new member must be classified)" % (missing, cls_name))
-    if gone:
+        execs = []
+        for c in eng.classes:
+            execs += eng.db.find(c + "::Execute", required=False)
+        if not execs:
+            raise AnalysisBroken("field(s) %s of %s are not classified and the class has no Execute to classify them by" % (missing, cls_name))
+        written = set()
+        for f in execs:
+            written |= set(eng.summary(f, {}, {}, True).may_def)
+        for m in missing:
+            kind = "dbu" if m in written else "config"
+            table.setdefault(kind, {})[m] = 1
+            chk.notes.append("new member %s::%s classified as %s (%s by an Execute overload)" % (
+                cls_name, m, "scratch, must be defined before use" if kind == "dbu" else "configuration", "written" if kind == "dbu" else "never written"))
+    if len(gone) > max(2, len(known) // 3):
         raise AnalysisBroken("classified field(s) %s no longer exist in %s" % (gone, cls_name))
+    for g in gone:
+        chk.notes.append("classified member %s::%s no longer exists (renamed or removed); rules about it are vacuous" % (cls_name, g))
     for f, why in table.get("allow", {}).items():
         chk.allow("E2", "%s::%s" % (cls_name, f), why)
 
